@@ -216,7 +216,27 @@ def finish(ctx, level_text, explanation, assumptions, extra_cov=None):
 
 def known_finding(ctx, pid, case, kind, detail):
     """True (and a KNOWN-FINDING line is queued) if this failure is one of the findings listed in
-    known_findings.json; matching is structural (tools/corr/known.py), per listed id"""
+    known_findings.json; matching is structural (tools/corr/known.py), per listed id.  A report that lists several problems
+    (exactness oracle, keep-going verification) may be the joint effect of several listed findings on one tree: it is known
+    iff every single problem is explained by some listed finding."""
+    parts = None
+    if kind == 'exactness' and isinstance(detail, list) and len(detail) > 1:
+        parts = [[p] for p in detail]
+    elif kind == 'fresh-verify' and isinstance(detail, list) and len(detail) == 2 and detail[0] == 'ok' and isinstance(detail[1], list) \
+            and len(detail[1]) == 2 and isinstance(detail[1][1], list) and len(detail[1][1]) > 1:
+        parts = [['ok', [detail[1][0], [x]]] for x in detail[1][1]]
+    if parts is not None:
+        if known_finding_one(ctx, pid, case, kind, detail, quiet=False):
+            return True
+        if all(known_finding_one(ctx, pid, case, kind, d1, quiet=True) for d1 in parts):
+            for d1 in parts:
+                known_finding_one(ctx, pid, case, kind, d1, quiet=False)
+            return True
+        return False
+    return known_finding_one(ctx, pid, case, kind, detail, quiet=False)
+
+
+def known_finding_one(ctx, pid, case, kind, detail, quiet=False):
     import known
     for k in known_findings().get('known', []):
         if k.get('property') != pid and pid not in k.get('also', []):
@@ -224,7 +244,7 @@ def known_finding(ctx, pid, case, kind, detail):
         fn = known.MATCHERS.get(k.get('id'))
         if fn is not None and fn(case, kind, detail):
             line = f"{k['id']}: {k['what']}"
-            if line not in ctx.known:
+            if not quiet and line not in ctx.known:
                 ctx.known.append(line)
             return True
     return False
